@@ -1,4 +1,17 @@
-import Autobean.Model.Store
+import Autobean.Generated.Consts
+import Autobean.Generated.Errors
+/-!
+Obligations over the constants regenerated from /repo (tie #1).  Each is discharged by kernel evaluation of a
+decidable statement about the *current* source; a change of the source that invalidates one makes this module
+fail to build, which the checks report as a broken proof obligation.
+-/
 namespace Autobean.Obligations
-theorem consts_placeholder : True := trivial
+
+/-- The four load-factor constants of `token_store.py` satisfy the relations every C07/C08 theorem assumes
+(`lf ≥ 2`, `double = 2·lf`, `half = lf / 2`, `one_half = lf + half`). -/
+theorem loadFactor_wf : Generated.loadFactor.WF := by decide
+
+/-- The translator could read every construct it looked for. -/
+theorem extract_complete : Generated.extractErrors = [] := by decide
+
 end Autobean.Obligations
